@@ -22,7 +22,8 @@ from . import lexgen as G
 
 IMPORTS = "From LQ Require Import Kernels.LexUni Kernels.Lex Kernels.ErrCtx."
 NEEDED = ["theories/Base/Str.v", "theories/Kernels/LexUni.v", "theories/Kernels/Lex.v",
-          "theories/Kernels/ErrCtx.v", "theories/Proofs/Lex_proofs.v", "theories/Proofs/ErrCtx_proofs.v"]
+          "theories/Kernels/ErrCtx.v", "theories/Proofs/LexMatch_proofs.v", "theories/Proofs/Lex_proofs.v",
+          "theories/Proofs/LexNest_proofs.v", "theories/Proofs/LexText_proofs.v", "theories/Proofs/ErrCtx_proofs.v"]
 
 GROUP = 6000     # cases per correspond() call
 SHARDS = 24      # shard files per call
@@ -97,10 +98,10 @@ def build(tier: str) -> Cases:
     pre_pool = [s for s in corpus if s in appendix]
     rest = [s for s in corpus if s not in appendix and len(s) <= 200]
     r.shuffle(rest)
-    pre_pool += rest if thorough else rest[:70]
+    pre_pool += rest if thorough else rest[:40]
     gsel = list(gen)
     r.shuffle(gsel)
-    pre_pool += gsel[: (700 if thorough else 45)]
+    pre_pool += gsel[: (700 if thorough else 25)]
     for s in pre_pool:
         sh = r.random() < 0.2
         for k in range(len(s)):
@@ -114,7 +115,7 @@ def build(tier: str) -> Cases:
         for (i, j, ins) in G.edits(r, s, k):
             cs.add(s, i, j, ins, r.random() < 0.2, "edit")
     # 5. random strings
-    for _ in range(12000 if thorough else 700):
+    for _ in range(12000 if thorough else 500):
         cs.whole(G.g_random(r), r.random() < 0.2, "random")
     return cs
 
